@@ -27,7 +27,7 @@ func TestC13_crowd(t *testing.T) {
 	kit.RequireMode(t, "std")
 	kit.Check(t, kit.Prop[c13cCase]{
 		ID: "C13", Quick: 2500, Thor: 150_000,
-		Rule: "2-4 callers blocked on one blocking / deadline / queue limiter (limit 1, held), generated individual cancellation instants, at most one release: every caller returns refused exactly at min(own cancellation where it applies, limiter bound) or granted at the release; non-trivial = a caller that is not the longest-waiting one is cancelled while the others keep waiting",
+		Rule: "2-4 callers blocked on one blocking / deadline / queue limiter (limit 1, held), generated individual cancellation instants, at most one release (possibly at the very instant one of them is cancelled, right behind the cancellation): every caller returns refused exactly at min(own cancellation where it applies, limiter bound) or granted at the release; non-trivial = a caller that is not the longest-waiting one is cancelled while the others keep waiting",
 		Gen: func(t *rapid.T) c13cCase {
 			var c c13cCase
 			c.Stack.Kind = rapid.SampledFrom([]string{"blocking", "blocking", "deadline", "deadline", "queue", "queue", "pool"}).Draw(t, "kind")
@@ -65,6 +65,12 @@ func TestC13_crowd(t *testing.T) {
 				c.RelMs = rapid.IntRange(6, 55).Draw(t, "rel")
 				for used[c.RelMs] {
 					c.RelMs++
+				}
+				if rapid.IntRange(0, 2).Draw(t, "tie") == 0 {
+					// one caller is cancelled at the very instant of the release, the cancellation first and the release
+					// right behind it (before the caller has had a chance to notice): the hand-off meets a waiter whose
+					// context is done already. Either answer is right for that caller at that instant.
+					c.CancelMs[rapid.IntRange(0, n-1).Draw(t, "tieWho")] = c.RelMs
 				}
 			}
 			return c
@@ -128,7 +134,7 @@ func runC13Crowd(c c13cCase) kit.Outcome {
 	snap := w.snapshot()
 	var viol *kit.Outcome
 	granted := 0
-	waitingAtRelease := 0
+	waitingAtRelease, tieWaiting := 0, 0
 	nonTrivial := false
 	for i, cl := range callers {
 		s := snap[cl.ID]
@@ -151,6 +157,8 @@ func runC13Crowd(c c13cCase) kit.Outcome {
 		}
 		if rel < bound {
 			waitingAtRelease++
+		} else if rel == bound && rel != never {
+			tieWaiting++
 		}
 		switch {
 		case s.Done && s.OK:
@@ -183,7 +191,7 @@ func runC13Crowd(c c13cCase) kit.Outcome {
 		if waitingAtRelease > 0 {
 			want = 1
 		}
-		if granted != want {
+		if granted != want && !(want == 0 && tieWaiting > 0 && granted == 1) {
 			o := kit.Viol(kind+":crowd-count", "%d caller(s) were waiting when the token was released at %dms, %d were granted", waitingAtRelease, c.RelMs, granted)
 			viol = &o
 		}
